@@ -71,6 +71,15 @@ def setup():
         return child
 
     TestNode.pick_child = pick_child
+    # observe every registration of a visit (C09/C16: shared bookkeeping)
+    original_register = node_module.EdgeRegister.register
+
+    def register(self, node, worker):
+        original_register(self, node, worker)
+        if CURRENT is not None:
+            CURRENT.registrations.append((self, node, worker.id))
+
+    node_module.EdgeRegister.register = register
     return _mods
 
 
@@ -414,6 +423,7 @@ class Sim:
         self.max_iterations = max_iterations
         self.scratch = scratch
         self.events = []
+        self.registrations = []
         self.attempts = {}
         self.workers = {}
         self.error = None
@@ -432,6 +442,8 @@ class Sim:
 
     def identity(self, node):
         suffix = node.params["_name_map_file"].get("nets.cfg", "")
+        if not suffix or node.is_flat():
+            return node.setless_form
         return node.setless_form.replace(suffix, "<net>")
 
     def duration_for(self, ident, attempt):
